@@ -371,6 +371,21 @@ def c07(run, scratch):
     r = tlc.run('HiLo', 'HiLo_' + run.tier, workers=16, heap='4g', timeout=3600)
     _require(r.completed and not r.invariant_violated, 'HiLo theorem fails on the specification: ' + r.out[-1500:])
     run.add_tlc('HiLo_' + run.tier, r)
+    # symbolic: the identity for EVERY spelling in [-2^32, 2^32) (Apalache, SMT); the carry-less mutant must be refuted
+    import subprocess, shutil as _sh
+    apa = {}
+    if _sh.which('apalache-mc'):
+        for inv, want in (('Inv', 0), ('InvMutant', 12)):
+            try:
+                pr = subprocess.run(['apalache-mc', 'check', '--init=Init', '--next=Next', '--inv=' + inv, '--length=0',
+                                     '--out-dir=' + os.path.join(scratch, 'apa_' + inv), os.path.join(tlc.SPEC_DIR, 'HiLoApa.tla')],
+                                    stdout=subprocess.PIPE, stderr=subprocess.STDOUT, timeout=600, text=True, cwd=scratch)
+                apa[inv] = pr.returncode
+                if inv == 'Inv' and pr.returncode == 12:
+                    raise tlc.TlcFailure('Apalache refutes the %hi/%lo identity on the specification: ' + pr.stdout[-1500:])
+            except (subprocess.TimeoutExpired, OSError) as e:
+                apa[inv] = 'not run: %s' % type(e).__name__
+    run.coverage['apalache_hilo_all_2^33_spellings'] = {'Inv (0 = holds)': apa.get('Inv', 'apalache-mc not found'), 'InvMutant (12 = refuted)': apa.get('InvMutant', 'apalache-mc not found')}
     # (B) relocate_hi / relocate_lo over all 4096 low parts x upper classes, both spellings
     uppers = list(UPPER_CLASSES)
     rng = random.Random(run.seed)
